@@ -45,6 +45,7 @@ struct Stall
 {
   int thread;
   uint8_t kind;
+  uint8_t prev_kind; // 0 = any; otherwise the thread's previous yield point must have been of this kind
   uint32_t nth;
   uint64_t duration_ns;
   bool fired;
@@ -86,9 +87,9 @@ void start(Config const& cfg); // calling thread becomes simulated thread 0
 void stop();                   // scheduler inactive again; other simulated threads stay parked
 bool active();
 Stats const& stats();
-void add_stall(int thread, uint8_t kind, uint32_t nth, uint64_t duration_ns);
+void add_stall(int thread, uint8_t kind, uint32_t nth, uint64_t duration_ns, uint8_t prev_kind = 0);
 // arm a stall for `thread` relative to now
-void arm_stall(int thread, uint8_t kind, uint32_t nth, uint64_t duration_ns);
+void arm_stall(int thread, uint8_t kind, uint32_t nth, uint64_t duration_ns, uint8_t prev_kind = 0);
 
 // Called when the run cannot continue: reason is "deadlock", "stuck" (fair budget exhausted) or
 // "oracle". The handler must not return (it writes the run record and _exit()s).
